@@ -67,6 +67,18 @@ class Scope:
         self.held = holder == "user"
 
 
+EFFECT_TAGS = (6, 9, 10, 15, 16, 17, 18)      # Effect::new / new_isomorphic / watch / new_sync / watch_sync / watch(immediate) / create_effect
+RENDER_TAGS = (8, 19, 20)                     # RenderEffect::new / new_isomorphic / new_with_value
+IMM_TAGS = (11, 21, 22, 23)                   # ImmediateEffect::new / new_mut / new_isomorphic / new_scoped
+MEMO_TAGS = (7, 24, 25, 26)                   # Memo::new / new_with_compare / new_owning / from(ArcMemo)
+NESTED_TAGS = (5,) + EFFECT_TAGS + RENDER_TAGS + IMM_TAGS + MEMO_TAGS
+N_HK = 13                                     # typed arena handles (statement 27), see harness/rx2/src/c08.rs new_typed
+HK_SLOTS = {0: 2, 7: 2, 8: 2}
+HKN = ["signal() = ReadSignal + WriteSignal", "WriteSignal::from(ArcWriteSignal)", "StoredValue::new_local", "store_value", "StoredValue::from(ArcStoredValue)",
+       "RwSignal::new_local", "RwSignal::from(ArcRwSignal)", "RwSignal + read_only()", "RwSignal + write_only()",
+       "Signal::derive", "Signal::stored", "ReadSignal::from(ArcReadSignal)", "RwSignal::from(&ArcRwSignal)"]
+
+
 class Sim:
     """who created what, and what a release must therefore do"""
 
@@ -91,11 +103,13 @@ class Sim:
     def run_body(self, sc, body):
         for st in body:
             t = st[0]
-            if t in (0, 1, 12):
-                h = dict(alive=True, hid=len(self.handles), kind=(st[1] if t == 12 else None))
-                self.handles.append(h)
-                if sc.alive:
-                    sc.vals.append(("h", h))
+            if t in (0, 1, 12, 27):
+                for _ in range(HK_SLOTS.get(st[1], 1) if t == 27 else 1):
+                    h = dict(alive=True, hid=len(self.handles), kind=(st[1] if t == 12 else None),
+                             hk=(st[1] if t == 27 else None))
+                    self.handles.append(h)
+                    if sc.alive:
+                        sc.vals.append(("h", h))
             elif t == 2:
                 cid = self.ncid
                 self.ncid += 1
@@ -105,10 +119,19 @@ class Sim:
                 sc.ctx[st[1] if st[1] < 2 else 2] = st[2]
             elif t == 4:
                 self.log.append(("use", st[1], self.lookup(sc, st[1])))
+            elif t in (13, 14):
+                ty = st[1] if st[1] < 2 else 2
+                p = self.provider(sc, ty)
+                self.log.append(("use", st[1], p.ctx[ty] if p is not None else None))
+                if p is not None:
+                    if t == 13:
+                        del p.ctx[ty]           # take_context removes the nearest binding
+                    else:
+                        p.ctx[ty] = st[2]       # update_context replaces it where it is
             elif t == 5:
                 ch = self.new_scope(sc, "user", st[1])
                 self.run_body(ch, st[1])
-            elif t == 8:
+            elif t in RENDER_TAGS:
                 # render effect: not owned by the arena, runs at once; its task is numbered after
                 # the tasks of the effects its body creates
                 own = self.new_scope(sc, "effect", st[1])
@@ -117,34 +140,46 @@ class Sim:
                 e = dict(eid=len(self.effects), scope=own, alive=True, set=False, dirty=False, first=False,
                          woken=True, done=False, body=st[1], render=True)
                 self.effects.append(e)
-            elif t == 11:
+            elif t in IMM_TAGS:
                 own = self.new_scope(sc, "imm", st[1])
                 m = dict(iid=len(self.imms), scope=own, held=True, body=st[1])
                 self.imms.append(m)
+                if t == 23:
+                    # new_scoped: the current owner holds the handle and drops it in one of its cleanups
+                    m["scoped"] = True
+                    if sc.alive:
+                        sc.cleanups.append(("imm", m))
+                    else:
+                        m["held"] = False       # no live owner to register with: dropped at once
+                        self.release(own, True, ())
                 self.log.append(("imm", m["iid"]))
                 self.run_body(own, st[1])
-            elif t in (6, 9, 10):
+            elif t in EFFECT_TAGS:
                 own = self.new_scope(sc, "effect", st[1])
                 e = dict(eid=len(self.effects), scope=own, alive=True, set=True, dirty=True, first=True, woken=True,
                          done=False, body=st[1], render=False)
                 self.effects.append(e)
                 if sc.alive:
                     sc.vals.append(("e", e))
-            elif t == 7:
+            elif t in MEMO_TAGS:
                 own = self.new_scope(sc, "memo", st[1])
                 m = dict(mid=len(self.memos), scope=own, alive=True, dirty=True, sub=False, body=st[1])
                 self.memos.append(m)
                 if sc.alive:
                     sc.vals.append(("m", m))
 
-    def lookup(self, sc, ty):
-        ty = ty if ty < 2 else 2
+    def provider(self, sc, ty):
         cur = sc
         while cur is not None and cur.alive:
             if ty in cur.ctx:
-                return cur.ctx[ty]
+                return cur
             cur = cur.parent
         return None
+
+    def lookup(self, sc, ty):
+        ty = ty if ty < 2 else 2
+        p = self.provider(sc, ty)
+        return p.ctx[ty] if p is not None else None
 
     # --- release
     def release(self, sc, kill, path):
@@ -159,7 +194,13 @@ class Sim:
         for k in kids:
             self.release(k, False, path)
         for cid in cleanups:
-            self.rel.append((cid, path))
+            if isinstance(cid, tuple):
+                m = cid[1]              # the cleanup registered by ImmediateEffect::new_scoped drops the effect
+                if m["held"]:
+                    m["held"] = False
+                    self.release(m["scope"], True, path)
+            else:
+                self.rel.append((cid, path))
         for kind, v in vals:
             self.remove(kind, v, path)
 
@@ -293,6 +334,11 @@ class Sim:
         elif t == 24:
             if a < len(self.effects):
                 self.remove("e", self.effects[a], ())      # arena entry removed / render handle dropped
+        elif t == 25:
+            if a < len(self.effects):
+                e = self.effects[a]
+                if not e["render"]:
+                    e["alive"] = False       # Effect::stop: never runs again, its task ends at the next poll
         elif t == 26:
             if a < len(self.imms):
                 m = self.imms[a]
@@ -303,7 +349,7 @@ class Sim:
         elif t == 27:
             if a < len(self.imms):
                 m = self.imms[a]
-                if m["held"]:
+                if m["held"] and not m.get("scoped"):
                     m["held"] = False
                     self.release(m["scope"], True, ())
 
@@ -350,41 +396,51 @@ def gen_body(rng, depth, budget, ctxy=False, fav=0):
                 out.append([12, fav if rng.random() < 0.5 else rng.randrange(N_KINDS)])
             elif r < 0.25:
                 out.append([3, rng.randint(0, 2), rng.randint(1, 99)])
+            elif r < 0.31:
+                out.append([13, rng.randint(0, 2)])
+            elif r < 0.37:
+                out.append([14, rng.randint(0, 2), rng.randint(100, 199)])
             elif r < 0.55:
-                out.append([4, rng.randint(0, 2)])
+                out.append([4, rng.randint(0, 2), rng.randint(0, 2)])
             elif r < 0.65 or depth >= 3:
                 out.append([2])
             elif r < 0.85:
-                out.append([5, gen_body(rng, depth + 1, budget, True, fav)])
+                out.append([5, gen_body(rng, depth + 1, budget, True, fav), rng.randint(0, 2)])
             elif r < 0.92:
                 out.append([rng.choice([6, 8, 11]), gen_body(rng, depth + 1, budget, True, fav)])
             else:
-                out.append([7, gen_body(rng, depth + 1, budget, True, fav)])
+                out.append([rng.choice(MEMO_TAGS), gen_body(rng, depth + 1, budget, True, fav)])
             continue
         if r < 0.09:
             out.append([0])
         elif r < 0.18:
             out.append([1])
-        elif r < 0.32:
+        elif r < 0.27:
             out.append([12, fav if rng.random() < 0.5 else rng.randrange(N_KINDS)])
+        elif r < 0.33:
+            out.append([27, rng.randrange(N_HK)])
         elif r < 0.48:
-            out.append([2])
-        elif r < 0.56:
+            out.append([2] if rng.random() < 0.7 else [2, 1])
+        elif r < 0.55:
             out.append([3, rng.randint(0, 2), rng.randint(1, 99)])
+        elif r < 0.61:
+            out.append([4, rng.randint(0, 2), rng.randint(0, 2)])
+        elif r < 0.625:
+            out.append([13, rng.randint(0, 2)])
         elif r < 0.64:
-            out.append([4, rng.randint(0, 2)])
+            out.append([14, rng.randint(0, 2), rng.randint(100, 199)])
         elif depth >= 3:
             out.append([2])
         elif r < 0.73:
-            out.append([5, gen_body(rng, depth + 1, budget, False, fav)])
+            out.append([5, gen_body(rng, depth + 1, budget, False, fav), rng.choice([0, 0, 1, 2])])
         elif r < 0.81:
-            out.append([rng.choice([6, 6, 9, 10]), gen_body(rng, depth + 1, budget, False, fav)])
+            out.append([rng.choice([6, 6, 9, 10] + list(EFFECT_TAGS)), gen_body(rng, depth + 1, budget, False, fav)])
         elif r < 0.89:
-            out.append([8, gen_body(rng, depth + 1, budget, False, fav)])
+            out.append([rng.choice([8, 8] + list(RENDER_TAGS)), gen_body(rng, depth + 1, budget, False, fav)])
         elif r < 0.95:
-            out.append([11, gen_body(rng, depth + 1, budget, False, fav)])
+            out.append([rng.choice([11, 11, 21, 22, 23]), gen_body(rng, depth + 1, budget, False, fav)])
         else:
-            out.append([7, gen_body(rng, depth + 1, budget, False, fav)])
+            out.append([rng.choice(MEMO_TAGS), gen_body(rng, depth + 1, budget, False, fav)])
     return out
 
 
@@ -444,8 +500,10 @@ def gen_case(rng):
             op = [22, pick_user(), rng.randint(0, 2)]
         elif r < 0.975:
             op = [23, pick(len(sim.memos))]
-        elif r < 0.99:
+        elif r < 0.983:
             op = [24, pick(len(sim.effects))]
+        elif r < 0.99:
+            op = [25, pick(len(sim.effects))]
         else:
             op = [27, pick(len(sim.imms))]
         if sim.imms and rng.random() < 0.12:
@@ -457,10 +515,20 @@ def gen_case(rng):
     return [body, ops]
 
 
+def has_tag(body, tag):
+    return any(st[0] == tag or (st[0] in NESTED_TAGS and has_tag(st[1], tag)) for st in body)
+
+
 def generate(rng, tier):
     n = N_QUICK if tier == "quick" else N_THOROUGH
     for _ in range(n):
-        yield dict(case=gen_case(rng), kind="program")
+        c = gen_case(rng)
+        if has_tag(c[0], 23):
+            # ImmediateEffect::new_scoped is not in the Coq model (its handle is dropped by a cleanup of the scope
+            # that created it): such programs are judged by the oracle alone
+            yield dict(case=c, kind="program-scoped-immediate", compare=False)
+        else:
+            yield dict(case=c, kind="program")
 
 
 # ------------------------------------------------------------------ oracle
@@ -487,7 +555,8 @@ def check_point(j, sim, o, disposed_effects, seen_cids):
     if len(st) != len(sim.handles):
         return "op %s: %d handle states for %d handles" % (j, len(st), len(sim.handles))
     for h, v in zip(sim.handles, st):
-        what = "handle %d" % h["hid"] + (" (raw ArenaItem<%s>)" % kind_name(h["kind"]) if h.get("kind") is not None else "")
+        what = "handle %d" % h["hid"] + (" (raw ArenaItem<%s>)" % kind_name(h["kind"]) if h.get("kind") is not None else "") + (
+            " (%s)" % HKN[h["hk"] % N_HK] if h.get("hk") is not None else "")
         if v in (-4, -5):
             return "op %s: %s: is_disposed() says %s but the value %s" % (
                 j, what, "disposed" if v == -4 else "not disposed", "still resolves" if v == -4 else "does not resolve")
@@ -555,7 +624,7 @@ def nontrivial(item, model):
     body, ops = item["case"]
 
     def nested(b):
-        return any(st[0] in (5, 6, 7, 8, 9, 10, 11) for st in b)
+        return any(st[0] in NESTED_TAGS for st in b)
     if not nested(body):
         return False
     if not any(op[0] in (10, 11, 12, 23) for op in ops):
@@ -573,22 +642,32 @@ def valid_case(item):
             if d > 4 or not isinstance(b, list):
                 return False
             for st in b:
-                if not isinstance(st, list) or not st or st[0] not in range(13):
+                if not isinstance(st, list) or not st or st[0] not in range(28):
                     return False
-                if st[0] == 3 and not (len(st) == 3 and 0 <= st[1] <= 2 and isinstance(st[2], int)):
+                if st[0] in (3, 14) and not (len(st) == 3 and 0 <= st[1] <= 2 and isinstance(st[2], int)):
                     return False
-                if st[0] == 4 and not (len(st) == 2 and 0 <= st[1] <= 2):
+                if st[0] == 4 and not (len(st) in (2, 3) and 0 <= st[1] <= 2 and (len(st) == 2 or 0 <= st[2] <= 2)):
+                    return False
+                if st[0] == 13 and not (len(st) == 2 and 0 <= st[1] <= 2):
+                    return False
+                if st[0] == 27 and not (len(st) == 2 and isinstance(st[1], int) and 0 <= st[1] < N_HK):
+                    return False
+                if st[0] == 2 and st not in ([2], [2, 1]):
+                    return False
+                if st[0] == 5 and not (len(st) in (2, 3) and ok_body(st[1], d + 1) and (len(st) == 2 or st[2] in (0, 1, 2))):
                     return False
                 if st[0] == 12 and not (len(st) == 2 and isinstance(st[1], int) and 0 <= st[1] < N_KINDS):
                     return False
-                if st[0] in (0, 1, 2) and len(st) != 1:
+                if st[0] in (0, 1) and len(st) != 1:
                     return False
-                if st[0] in (5, 6, 7, 8, 9, 10, 11) and not (len(st) == 2 and ok_body(st[1], d + 1)):
+                if st[0] in NESTED_TAGS and st[0] != 5 and not (len(st) == 2 and ok_body(st[1], d + 1)):
                     return False
             return True
         if not ok_body(body, 0):
             return False
-        ar = {10: 2, 11: 2, 12: 2, 13: 2, 14: 2, 15: 2, 16: 2, 17: 2, 18: 3, 19: 2, 20: 2, 21: 2, 22: 3, 23: 2, 24: 2, 26: 2, 27: 2, 28: 4, 29: 2}
+        if has_tag(body, 23) and item.get("compare", True):
+            return False
+        ar = {10: 2, 11: 2, 12: 2, 13: 2, 14: 2, 15: 2, 16: 2, 17: 2, 18: 3, 19: 2, 20: 2, 21: 2, 22: 3, 23: 2, 24: 2, 25: 2, 26: 2, 27: 2, 28: 4, 29: 2}
         for op in ops:
             if not isinstance(op, list) or not op or op[0] not in ar or len(op) != ar[op[0]]:
                 return False
@@ -609,18 +688,32 @@ def valid_case(item):
 
 
 STN = {0: "signal", 1: "stored", 2: "on_cleanup", 3: "provide", 4: "use", 5: "child", 6: "effect", 7: "memo",
-       8: "render-effect", 9: "isomorphic-effect", 10: "watch", 11: "immediate-effect", 12: "arena-item"}
+       8: "render-effect", 9: "isomorphic-effect", 10: "watch", 11: "immediate-effect", 12: "arena-item",
+       13: "take_context", 14: "update_context", 15: "Effect::new_sync", 16: "Effect::watch_sync", 17: "watch-immediate",
+       18: "create_effect", 19: "RenderEffect::new_isomorphic", 20: "RenderEffect::new_with_value",
+       21: "ImmediateEffect::new_mut", 22: "ImmediateEffect::new_isomorphic", 23: "ImmediateEffect::new_scoped",
+       24: "Memo::new_with_compare", 25: "Memo::new_owning", 26: "Memo::from(ArcMemo)", 27: "handle"}
+USE_MODE = ["use_context", "with_context", "expect_context"]
+CHILD_MODE = ["child", "current().child()", "child-via-set()"]
 OPN = {10: "rerun", 11: "cleanup", 12: "drop", 13: "notify-effect", 14: "notify-memo", 15: "read-memo", 16: "poll",
        17: "run-until-idle", 18: "alloc", 19: "dispose-value", 20: "pause", 21: "resume", 22: "use-at",
-       23: "dispose-memo", 24: "dispose-effect/drop-render-handle", 26: "notify-immediate", 27: "drop-immediate",
+       23: "dispose-memo", 24: "dispose-effect/drop-render-handle", 25: "stop-effect", 26: "notify-immediate", 27: "drop-immediate",
        28: "alloc-items", 29: "take-value"}
 
 
 def show_body(b):
     out = []
     for st in b:
-        if st[0] in (5, 6, 7, 8, 9, 10, 11):
+        if st[0] == 5:
+            out.append("%s{%s}" % (CHILD_MODE[st[2] if len(st) > 2 else 0], show_body(st[1])))
+        elif st[0] in NESTED_TAGS:
             out.append("%s{%s}" % (STN[st[0]], show_body(st[1])))
+        elif st[0] == 4:
+            out.append("%s(%d)" % (USE_MODE[st[2] if len(st) > 2 else 0], st[1]))
+        elif st[0] == 27:
+            out.append("handle<%s>" % HKN[st[1] % N_HK])
+        elif st == [2, 1]:
+            out.append("Owner::on_cleanup")
         elif st[0] == 12:
             out.append("arena-item<%s>" % kind_name(st[1]))
         elif len(st) > 1:
